@@ -255,7 +255,7 @@ MUTANTS = [
     Mutant("resources-of-pending", "scheduler.py", replace_once("                AND s2.state = {StepState.RUNNING.value}\n", "                AND s2.state = {StepState.PENDING.value}\n"), ("R-C12-3",)),
     Mutant("resource-le", "scheduler.py", replace_once("      ) < req.units\n", "      ) <= req.units - 1 - 1\n"), ("R-C12-3",)),
     Mutant("undefined-resource-ok", "scheduler.py", replace_once("      avail.name IS NULL\n      OR (", "      0\n      OR ("), ("R-C12-3",)),
-    Mutant("claim-after-region", "scheduler.py", in_function("Scheduler.pop_next_job", lambda s: s.replace("            job = self._derive_job(step)\n            step.set_state(state)\n", "            job = self._derive_job(step)\n        async with self.db:\n            step.set_state(state)\n") if "step.set_state(state)" in s else None), ("R-C12-3",)),
+    Mutant("claim-after-region", "scheduler.py", in_function("Scheduler.pop_next_job", lambda s: s.replace("                step.reset_for_rerun()\n            step.set_state(state)\n", "                step.reset_for_rerun()\n        async with self.db:\n            step.set_state(state)\n") if "                step.reset_for_rerun()\n            step.set_state(state)\n" in s else None), ("R-C12-3",)),
     Mutant("bypass-marks-running", "scheduler.py", in_function("Scheduler._get_next_step", replace_once("state = StepState.CHECKING if has_hash else StepState.RUNNING", "state = StepState.RUNNING")), ("R-C12-4",)),
 ]
 
